@@ -169,8 +169,9 @@ static void cmd(const std::vector<std::string>& t, std::string& out) {
         Document d;
         d.Parse(json.data(), json.size());
         if (d.HasParseError()) {
-          dumps[ti] = "parse-error";
-          return;
+          // invalid text: the error path is exercised concurrently too; code and offset must agree between threads
+          dumps[ti] = "parse-error:" + std::to_string((int)d.GetParseError()) + ":" + std::to_string(d.GetErrorOffset());
+          continue;
         }
         auto& a = d.GetAllocator();
         if (d.IsObject()) {
